@@ -8,5 +8,7 @@ command -v node >/dev/null || { echo "node missing"; exit 1; }
 command -v z3-new >/dev/null || { echo "z3-new missing"; exit 1; }
 node --expose-internals -e "require('internal/deps/acorn/acorn/dist/acorn')" 
 (cd /repo && go build -o /dev/null .)
+# the go/ssa symbolic interpreter (x/tools v0.29.0 from the module cache, offline)
+(cd engine/gosym && go build -o /dev/null ./cmd/gosym)
 mkdir -p evidence
 echo "setup ok"
